@@ -19,6 +19,11 @@ def register(db):
                        "posixpath.join(source href, quote(path)), other keys kept, rel=stylesheet; the dependency's own lists and dicts are not written (deep copy first)")
     c2.harness, c2.pure = as_dict_harness, True
     db.add(c2)
+    c2b = Contract(name=DEPQ + "as_dict#loops", params=[("self", "Any")], returns="Any", props=P + ["C08"],
+                   note="side conditions of the independent-iteration rule for every loop of as_dict (DESIGN 3.4): with them the element-wise obligations of the "
+                        "as_dict harness hold for script / stylesheet lists of every length; decided on the AST alone, so also when the body leaves the verified subset")
+    c2b.harness, c2b.pure = as_dict_loops_harness, True
+    db.add(c2b)
     c3 = Contract(name=CORE + "HTMLDocument.save_html", params=[("self", "Any"), ("file", "Str"), ("libdir", "Any"), ("include_version", "Bool")], returns="Str", props=P,
                   note="effects, in order: every dependency of render(lib_prefix=libdir, include_version) is copied to saveDest(file, libdir) with the same include_version, "
                        "then the rendered html is written to `file`; returns `file`")
@@ -211,6 +216,19 @@ def dotted(e):
     return None
 
 
+def as_dict_loops_harness(I, c):
+    from ..symexec import Obligation
+    qual = c.name.split("#")[0]
+    short = qual.replace("htmltools.", "")
+    obs = []
+    found = independent_iteration_findings(I.src.find(qual))
+    for k, bad in sorted(found.items()):
+        obs.append(Obligation(f"G:{short}:loop{k}.independent-iterations", [], z3.BoolVal(not bad), f"{qual} loop {k}", "G",
+                              "iterations are independent (straight-line body, stores only into the loop variable, no value carried between iterations, "
+                              "the list itself untouched): " + ("holds" if not bad else "; ".join(bad[:4]))))
+    return obs
+
+
 def as_dict_harness(I, c):
     from ..symexec import PyDict, PySeq, SStr, SBool, SNone, SAdt, Obligation, Unsupported
     qual = c.name
@@ -226,13 +244,6 @@ def as_dict_harness(I, c):
             d.append((S("rel"), S("stylesheet")))
         return PyDict(d, False)
 
-    # every loop of the real function under the independent-iteration rule: the element-wise obligations below, proved on lists of
-    # length <= 2 with symbolic contents, then hold for lists of every length
-    fn_node = I.src.find(qual)
-    for k, bad in sorted(independent_iteration_findings(fn_node).items()):
-        obs.append(Obligation(f"G:{short}:loop{k}.independent-iterations", [], z3.BoolVal(not bad), f"{qual} loop {k}", "G",
-                              "iterations are independent (straight-line body, stores only into the loop variable, no value carried between iterations, "
-                              "the list itself untouched): " + ("holds" if not bad else "; ".join(bad[:4]))))
     for kind in ("url", "dir", "none"):
         for ns, nc in ((0, 0), (1, 1), (2, 1), (1, 2)):
             if kind == "none" and (ns, nc) not in ((1, 1), (2, 1)):
